@@ -312,7 +312,7 @@ func runC04(c *hx.Ctx) {
 	}
 	depth, sets := 4, 1500
 	if c.Thorough() {
-		depth, sets = 5, 40000
+		depth, sets = 6, 40000
 	}
 	c04Exhaustive(c, depth)
 	c04Random(c, sets)
